@@ -6,7 +6,7 @@ import (
 )
 
 //zzv:bound B1 = real NewFan + AttachFanRpmCurveData -> ComputePwmBoundaries on RPM-curve maps with 1..3 (thorough 1..4) entries, keys any distinct 0..255, RPM values any whole numbers 0..10^6 ; a separate harness uses arbitrary float64 RPM values 0..10^6 on 2 (thorough 1..3) entries so that the truncation to whole RPM matters: start PWM = least key with int(rpm) > 0 (255 if none), max PWM = least key attaining the largest int(rpm) (255 if all are 0), whenever the limit is not configured
-//zzv:bound B2 = nil or empty data: error returned and no limit changed
+//zzv:bound B2 = nil or empty data, on a fresh fan and after a successful attachment of symbolic data: error returned and no limit changed (a refusal keeps what was measured before)
 //zzv:bound B3 = all eight combinations of configured minPwm/startPwm/maxPwm (values any 0..255): configured values are what the getters return after attach
 //zzv:bound B4 = neverStop off: GetMinPwm() = 0 whatever is configured or measured
 //zzv:bound B5 = two successive attachments of different data: the limits are those of the second data set
@@ -155,4 +155,23 @@ func ZZ_C13_Reattach() {
 	keys, rpms, data2 := zzCurveData("", 2)
 	zzv.Assert(fan.AttachFanRpmCurveData(&data2) == nil, "B5.second_attach_ok")
 	zzCheckLimits(fan, cMin, cStart, cMax, keys, rpms, ".after_reattach")
+}
+
+// A refused attachment after a successful one (history): the limits measured from the first data
+// stay what they were.
+func ZZ_C13_EmptyAfterAttach() {
+	fan, _, _, _ := zzConfiguredFan(zzv.Choice("configured", 8))
+	_, _, data1 := zzCurveData("first.", 2)
+	zzv.Assert(fan.AttachFanRpmCurveData(&data1) == nil, "B2.first_attach_ok")
+	min0, start0, max0 := fan.GetMinPwm(), fan.GetStartPwm(), fan.GetMaxPwm()
+	var err error
+	if zzv.Choice("nil", 2) == 0 {
+		err = fan.AttachFanRpmCurveData(nil)
+	} else {
+		empty := map[int]float64{}
+		err = fan.AttachFanRpmCurveData(&empty)
+	}
+	zzv.Record("startAfterRefusal", fan.GetStartPwm())
+	zzv.Assert(err != nil, "B2.empty_data_refused_after_attach")
+	zzv.Assert(zzv.And(zzv.And(fan.GetMinPwm() == min0, fan.GetStartPwm() == start0), fan.GetMaxPwm() == max0), "B2.refusal_keeps_measured_limits")
 }
